@@ -1,6 +1,7 @@
 """Obligations, known findings, evidence, replay files, exit codes."""
 import ast
 import json
+import re
 import os
 import time
 from typing import Any, Callable, Dict, List, Optional
@@ -45,6 +46,7 @@ class Checker:
         self.calls_resolved = 0
         self.calls_unresolved = 0
         self.notes: List[str] = []
+        self.sensitivity: Optional[Dict[str, Any]] = None
         self.t0 = time.time()
 
     # -- declaring rules
@@ -57,6 +59,8 @@ class Checker:
 
     def site_key(self, f: Optional[FuncInfo], construct: Any, module_rel: Optional[str] = None) -> str:
         c = construct if isinstance(construct, str) else norm(construct)
+        for pre in sorted(self.prog.inline_prefixes, key=len, reverse=True):   # inlined helpers' locals are spelled as in the source
+            c = re.sub(r'\b' + re.escape(pre), '', c)
         if len(c) > 160:
             c = c[:160]
         if f is not None:
@@ -207,6 +211,7 @@ def finish(ch: Checker, only: Optional[str] = None, seed: int = 0, write_evidenc
                 'all_obligation_keys': [o.rule + ' ' + o.key for o in obs][:400],
                 'notes': ch.notes,
                 'analysis_errors': errors,
+                'sensitivity_sweep': ch.sensitivity if ch.sensitivity is not None else 'not run in the quick tier',
                 'exhaustive': True,
             },
             'assumptions': [
